@@ -209,6 +209,8 @@ def run(ctx):
     compositions(ctx)
     principal_sqrt(ctx)
     scale_safety(ctx)
+    logabs_rule(ctx)
+    rep.floor('CX-8', 1)
     rep.floor('CX-7', 2)
     rep.floor('M0', 21)
     rep.floor('CFG-1', 30)
@@ -665,3 +667,67 @@ def scale_safety(ctx):
                 rep.ok('CX-7', name, 'all %d floating intermediates stay within degree 1 of the operand scale (the squared modulus is never formed)' % nvals, loc=loc)
         except Unsupported as e:
             rep.unk('CX-7', name, str(e))
+
+
+def logabs_rule(ctx):
+    """CX-8: a_complex_logabs = log(r) + log1p((q/r)^2)/2 with r the LARGER and q the smaller of |re|, |im| on every path:
+    equal to log|z| in exact arithmetic, the ratio never exceeds one (no overflow of its square) and the divisor is zero only
+    for z = 0.  A version that scales by the smaller component is the same function in exact arithmetic but returns
+    log(0) + log1p(inf) = NaN on the axes."""
+    rep = ctx.rep
+    name = 'a_complex_logabs'
+    fn = ctx.fn('complex', name, have='none')
+    if fn is None:
+        rep.unk('CX-8', name, 'anchor vanished')
+        return
+    loc = fn.loc(fn.entry.instrs[0])
+    try:
+        dom = CDom(getattr(ctx, 'ctab', {}), set())
+        args = []
+        syms = [X, Y]
+        k = 0
+        for t, n in fn.params:
+            if t.is_fp:
+                args.append(syms[k])
+                k += 1
+            else:
+                raise Unsupported('parameter passing of a_complex by value is not two reals (%r)' % t)
+        lv = symx.Interp(dom, lookup_in([ctx.module('complex', have='none'), ctx.module('hdr_unit', have='none')])).run(fn, args)
+    except Unsupported as e:
+        rep.unk('CX-8', name, str(e))
+        return
+    probs = []
+    n = 0
+    ax, ay = sp.Abs(X), sp.Abs(Y)
+    for lf in lv:
+        n += 1
+        ret = sp.sympify(lf.ret)
+        cand = None
+        for r, q in ((ax, ay), (ay, ax)):
+            want = sp.log(r) + sp.log(1 + (q / r) ** 2) / 2
+            try:
+                if sp.simplify(ret - want) == 0:
+                    cand = (r, q)
+            except Exception:
+                pass
+        if cand is None:
+            probs.append('path %s returns %s, not log(r) + log1p((q/r)^2)/2' % (lf.pc, show(ret)))
+            continue
+        r, q = cand
+        # the path condition must say r >= q
+        okp = False
+        for c in lf.pc:
+            if isinstance(c, alg.Cond):
+                a_, b_ = sp.sympify(c.a), sp.sympify(c.b)
+                rel = c.rel()
+                if rel in ('>=', '>') and a_ == r and b_ == q:
+                    okp = True
+                if rel in ('<=', '<') and a_ == q and b_ == r:
+                    okp = True
+        if not okp:
+            probs.append('on the path %s the result is scaled by %s, which is not known to be the larger component: the ratio %s/%s can exceed one and the divisor '
+                         'can vanish for z != 0 (NaN on the axes)' % (lf.pc, r, q, r))
+    if probs:
+        rep.bad('CX-8', name, '; '.join(probs[:2]), loc=loc, key='%s: scaling by the larger component' % name)
+    else:
+        rep.ok('CX-8', name, '%d paths: log(r) + log1p((q/r)^2)/2 with r >= q on each (= log|z|, ratio <= 1)' % n, loc=loc)
